@@ -301,6 +301,29 @@ func (e *Engine) initIntrinsics() {
 		}
 		return nil
 	}
+	I["vp:vpOffer"] = func(e *Engine, a []Value, pos token.Pos, fn *ssa.Function) Value {
+		// scripted environment: a goroutine that sends v on ch exists from now on (under the current guard)
+		for _, al := range a[0].(*ChanV).Alts {
+			if al.Obj == nil {
+				continue
+			}
+			g := tb.And(e.G, al.G)
+			if al.Obj.OfferG != nil && !al.Obj.OfferG.IsFalse() {
+				panic(e.unsupported("vpOffer: a previous offer on this channel is still pending"))
+			}
+			al.Obj.OfferV, al.Obj.OfferG = a[1], g
+		}
+		return nil
+	}
+	I["vp:vpOfferPending"] = func(e *Engine, a []Value, pos token.Pos, fn *ssa.Function) Value {
+		r := tb.False
+		for _, al := range a[0].(*ChanV).Alts {
+			if al.Obj != nil && al.Obj.OfferG != nil {
+				r = tb.Or(r, tb.And(al.G, al.Obj.OfferG))
+			}
+		}
+		return r
+	}
 	I["vp:vpNow"] = func(e *Engine, a []Value, pos token.Pos, fn *ssa.Function) Value { return e.clock }
 	I["vp:vpBytes"] = func(e *Engine, a []Value, pos token.Pos, fn *ssa.Function) Value {
 		// vpBytes(tag, n): slice of n fresh symbolic bytes (n concrete)
@@ -772,12 +795,25 @@ func (e *Engine) initIntrinsics() {
 				n = int(al.Len.C)
 			}
 			buf := make([]byte, n)
+			symbolic := false
 			for i := 0; i < n; i++ {
 				c := e.arrCells(al.Arr)[int(al.Off.C)+i].(*Term)
 				if !c.IsConst() {
-					panic(e.unsupported("sha256 of symbolic input"))
+					symbolic = true
+					break
 				}
 				buf[i] = byte(c.C)
+			}
+			if symbolic {
+				// hash of symbolic bytes: an arbitrary digest (uninterpreted; functional consistency across calls is not modelled)
+				e.note("sha256 of symbolic input: arbitrary digest")
+				el := make([]Value, 32)
+				for i := range el {
+					el[i] = e.fresh("sha256", "byte", BV8)
+				}
+				gs = append(gs, al.G)
+				vs = append(vs, &ArrayV{el})
+				continue
 			}
 			h := sha256.Sum256(buf)
 			el := make([]Value, 32)
@@ -847,6 +883,12 @@ func (e *Engine) initIntrinsics() {
 	}
 	I["github.com/libp2p/go-libp2p/core/crypto.MarshalPublicKey"] = func(e *Engine, a []Value, pos token.Pos, fn *ssa.Function) Value {
 		return &TupleV{[]Value{e.stringToBytes(e.str("KEY"), types.NewSlice(types.Typ[types.Uint8])), e.zero(errT)}}
+	}
+
+	I["github.com/libp2p/go-libp2p/core/record.ConsumeEnvelope"] = func(e *Engine, a []Value, pos token.Pos, fn *ssa.Function) Value {
+		// signed envelopes are cryptography: the harnesses only ever supply bytes that do not verify
+		res := fn.Signature.Results()
+		return &TupleV{[]Value{e.zero(res.At(0).Type()), e.zero(res.At(1).Type()), e.newErr("invalid envelope")}}
 	}
 
 	// ---- libp2p identity helpers (text only used for logging) -------------------------------------
